@@ -27,7 +27,7 @@ def fpArr (h : Heap) (a : Ref) : Json :=
   let A := h.arr a
   obj [("legs_list", tagL A.legs), ("legs", ofList (fpLeg h) (h.list A.legs)), ("qtotal", tagB A.qtotal),
        ("labels", tagB A.labels), ("data", tagL A.data), ("blocks", ofNatList ((h.list A.data).map tagB)),
-       ("qdata", tagB A.qdata), ("nq", (h.buf A.qdata).length)]
+       ("qdata", tagB A.qdata), ("nq", (h.buf A.qdata).length), ("keys", ofNatList (h.buf A.qdata))]
 
 def intsOf (j : Json) : Except String (List Int) := listOf getInt j
 
@@ -55,8 +55,10 @@ def doStep (cy : Bool) (st : DSt) (calls : List Json) : Except String DSt := do
   for c in calls do
     let name ← getStr (← field c "name")
     let x ← parseArgs st tmps c
-    let (s, r) := callSt cy { h := st.h } name x
-    if s.ops.isEmpty && name != "ipurge_zeros" then throw s!"unknown call {name}"
+    let cn ← match CN.ofString name with
+      | some c => pure c
+      | none => throw s!"unknown call {name}"
+    let (s, r) := callSt cy { h := st.h } cn x
     let res ← getStr (fieldD c "res" (Json.str "-"))
     st := { st with h := s.h }
     if res == "a" then st := { st with amap := st.amap ++ [r] }
